@@ -4,7 +4,7 @@
 # runs the demonstration with and without the change. Prints one summary line.
 set -u
 export GOFLAGS=-mod=mod GOPROXY=off GOSUMDB=off GOTOOLCHAIN=local
-OUT="$1"; L="$2"; l=$(echo "$L" | tr 'AB' 'ab')
+OUT="$1"; L="$2"; l=$(echo "$L" | tr 'ABC' 'abc')
 PATCH="$OUT/mutant-$L.diff"; META="$OUT/meta-$L.json"
 [ -f "$PATCH" ] || { echo "$OUT $L: NO-PATCH"; exit 2; }
 S=/tmp/vm-$$; rm -rf "$S"; mkdir -p "$S"
